@@ -31,6 +31,11 @@ for dp, dn, fn in os.walk(os.path.join(root, "typhon")):
                         names.add("<ifexp>:" + ast.unparse(ch))
                     rec(ch, prefix, nested)
         rec(tree, "", False)
+        for st in tree.body:
+            if isinstance(st, ast.Assign):
+                for t in st.targets:
+                    if isinstance(t, ast.Name):
+                        names.add("<global>:" + t.id)
         out[rel] = sorted(names)
 here = os.path.dirname(os.path.abspath(__file__))
 json.dump(out, open(os.path.join(here, "..", "tyverif", "known_funcs.json"), "w"), indent=0, sort_keys=True)
